@@ -21,3 +21,21 @@ def check(prog, rep):
             rep.obligations.append(o)
     rep.rules["COMMIT-B"] = sub.rules["COMMIT-B"]
     rep.errors += sub.errors
+
+
+SQ = "aw_datastore/storages/sqlite.py"
+VARIANTS = [
+    ("B operands reversed (original defect)", SQ, "if (datetime.now() - self.last_commit) > timedelta(seconds=10):", "if (self.last_commit - datetime.now()) > timedelta(seconds=10):", "AGE"),
+    ("B age test nested under the count test", SQ, "            if self.num_uncommitted_statements > 50:\n                self.commit()\n            if (datetime.now() - self.last_commit) > timedelta(seconds=10):\n                self.commit()", "            if self.num_uncommitted_statements > 50:\n                if (datetime.now() - self.last_commit) > timedelta(seconds=10):\n                    self.commit()", "AGE"),
+    ("B threshold 1000 s", SQ, "> timedelta(seconds=10):", "> timedelta(seconds=1000):", "AGE"),
+    ("B threshold in minutes", SQ, "> timedelta(seconds=10):", "> timedelta(minutes=10):", "AGE"),
+    ("B age test removed", SQ, "            if (datetime.now() - self.last_commit) > timedelta(seconds=10):\n                self.commit()\n", "", "AGE"),
+    ("B old branch only logs", SQ, "            if (datetime.now() - self.last_commit) > timedelta(seconds=10):\n                self.commit()\n", "            if (datetime.now() - self.last_commit) > timedelta(seconds=10):\n                logger.debug('stale transaction')\n", "AGE"),
+    ("B last_commit not stamped by commit()", SQ, "        self.conn.commit()\n        self.last_commit = datetime.now()\n", "        self.conn.commit()\n", "AGE-STAMP"),
+    ("B comparison inverted", SQ, "if (datetime.now() - self.last_commit) > timedelta(seconds=10):", "if (datetime.now() - self.last_commit) < timedelta(seconds=10):", "AGE"),
+    ("B replace_last bypasses conditional_commit", SQ, "        self.conn.execute(query, [starttime, endtime, datastr, bucket_id])\n        self.conditional_commit(1)\n", "        self.conn.execute(query, [starttime, endtime, datastr, bucket_id])\n", "COMMIT-B"),
+    ("OK now hoisted", SQ, "            if (datetime.now() - self.last_commit) > timedelta(seconds=10):", "            now = datetime.now()\n            if (now - self.last_commit) > timedelta(seconds=10):", "ok"),
+    ("OK compared as instants", SQ, "if (datetime.now() - self.last_commit) > timedelta(seconds=10):", "if datetime.now() > self.last_commit + timedelta(seconds=10):", "ok"),
+    ("OK seconds via total_seconds", SQ, "if (datetime.now() - self.last_commit) > timedelta(seconds=10):", "if (datetime.now() - self.last_commit).total_seconds() >= 10:", "ok"),
+    ("OK else-if chain", SQ, "            if self.num_uncommitted_statements > 50:\n                self.commit()\n            if (datetime.now() - self.last_commit) > timedelta(seconds=10):\n                self.commit()", "            if self.num_uncommitted_statements > 50:\n                self.commit()\n            elif (datetime.now() - self.last_commit) > timedelta(seconds=10):\n                self.commit()", "ok"),
+]
